@@ -195,6 +195,7 @@ class World:
 class Interp:
     def __init__(self, world, inline=True, inline_filter=None, resolver=None):
         self.resolver = resolver
+        self.in_widths = {}
         self.w = world
         self.frame_counter = 0
         self.inline = inline
@@ -222,10 +223,27 @@ class Interp:
                     args.append(("param", i, name))
         for i, a in enumerate(args):
             path.store[("L", frame, i + 1)] = a
+            # learn static widths of root inputs from the (more specific) parameter types of inlined callees
+            if is_ptr(a) and a[1][0] == "P" and i + 1 < len(body["locals"]):
+                w_ = self._static_width(cr, body["locals"][i + 1]["ty"])
+                if w_ is not None:
+                    self.in_widths[a[1][2]] = w_
         ctx = {"fn": fn, "cr": cr, "frame": frame, "depth": depth, "subst": subst or {}}
         out = []
         self._walk(ctx, 0, path, frozenset(), out)
         return out
+
+    def _static_width(self, cr, tid):
+        ty = cr.ty(tid)
+        if ty.get("k") in ("ref", "ptr"):
+            ty = cr.ty(ty["inner"])
+        if ty.get("k") == "array" and ty.get("len") is not None and cr.ty(ty["elem"])["s"] == "u8":
+            return ty["len"]
+        if ty.get("k") == "adt":
+            lay = self.w.adt_layout(ty.get("crate"), ty["path"])
+            if lay and "size" in lay and "IS_C" in lay.get("repr", "") and lay.get("offsets") is not None:
+                return lay["size"]
+        return None
 
     # ------------------------------------------------------------ helpers
     def tysub(self, ctx, s):
@@ -481,6 +499,12 @@ class Interp:
     def write(self, path, loc, val):
         st = path.store
         k = loc[0]
+        if k == "IDX":
+            # element store: the base buffer is no longer its old content
+            base = loc[1]
+            old = self.content(path, base)
+            self.write(path, base, ("mut", old, ("setbyte", loc[2], val)))
+            return
         if k == "R":
             key = ("R", loc[1], loc[2], loc[3])
             # drop writes fully covered
@@ -985,6 +1009,26 @@ class Interp:
         if p in ("core::ops::index::Index::index", "core::ops::index::IndexMut::index_mut"):
             return self.index(ctx, path, ce, name, args, site, blk, dest_ty)
         if p == "core::slice::<impl [T]>::copy_from_slice":
+            if is_ptr(a0) and a0[1][0] == "R?":
+                # suffix of a buffer starting at a computed offset: recognise the left-pad idiom
+                _, base, lo, hi = a0[1]
+                src = self.argval(path, args[1])
+                old = self.content(path, base)
+                n = old[1] if isinstance(old, tuple) and old[0] == "zeros" else None
+                off = lo[1] if isinstance(lo, tuple) and lo[0] == "sym" else None
+                m = None
+                if isinstance(off, tuple) and off[0] == "okv":
+                    off = off[1]
+                if isinstance(off, tuple) and off[0] == "call" and off[1].endswith("checked_sub") and len(off[2]) == 2:
+                    m = (off[2][0], off[2][1])
+                elif isinstance(off, tuple) and off[0] == "binop" and off[1] in ("Sub", "SubUnchecked"):
+                    m = (off[2], off[3])
+                self.event(path, "copy", name, ce, args, site, blk, dest_ty, ctx, {"data": src, "target": base})
+                if n is not None and m is not None and m[0] == ("int", n) and m[1] == ("len", src) and hi == (0, 1):
+                    self.write(path, base, ("leftpad", n, src))
+                else:
+                    self.write(path, base, ("mut", old, ("copy_into_computed_range", 0, (src,))))
+                return ("unit",)
             if is_ptr(a0):
                 src = self.argval(path, args[1])
                 self.event(path, "copy", name, ce, args, site, blk, dest_ty, ctx, {"data": src, "target": a0[1]})
@@ -1137,7 +1181,13 @@ class Interp:
                 return self.okv(ctx, path, t[2][0])
             if t[0] == "call" and t[1] in ("Result::map", "Option::map"):
                 inner = self.okv(ctx, path, t[2][0])
-                return self.apply(ctx, path, t[2][1], inner)
+                return self.apply_fn(path, t[2][1], inner)
+            if t[0] == "call" and t[1] == "Result::and_then":
+                inner = self.okv(ctx, path, t[2][0])
+                f = t[2][1]
+                if isinstance(f, tuple) and f and f[0] == "fn":
+                    return ("okv", ("call", qshort(f[1]), (self.argval(path, inner),)))
+                return ("okv", self.apply_fn(path, f, inner))
             if t[0] == "split":
                 self._need(path, t[2], t[3])
                 return t[1]
@@ -1201,7 +1251,10 @@ class Interp:
                         return rets[0].ret
         if isinstance(f, tuple) and f and f[0] == "fn":
             nm = short(f[1])
-            return ("agg", "adt:" + nm, (x,))
+            last = nm.rsplit("::", 1)[-1]
+            if last[:1].isupper():
+                return ("agg", "adt:" + nm, (x,))
+            return ("call", qshort(f[1]), (x,))
         return ("apply", f, x)
 
     def split(self, ctx, path, ce, p, name, args, site, blk, dest_ty):
